@@ -236,6 +236,7 @@ func runC20(o *Options) *Result {
 			res.Sample(map[string]any{"template": c.Form, "x": strconv.FormatFloat(c.X, 'g', -1, 64), "output": string(c.Obs.Out)}, 8)
 		}
 	}
+	runRoundInts(res, rng)
 	runArith(o, res, rng)
 	runTime(o, res, rng)
 	res.pruneNoFailing()
@@ -338,6 +339,49 @@ type arithObs struct {
 	src     string
 	va, vb  float64
 	printed string
+}
+
+// runRoundInts: an integer of any width is already rounded; every rounding modifier and directive
+// prints it digit for digit, also beyond 2^53 where a detour through float64 would change it.
+func runRoundInts(res *Result, rng *RNG) {
+	type carrier struct {
+		kind string
+		text string
+		set  func(c *dyntpl.Ctx)
+	}
+	big := int64(9007199254740993)
+	var cs []carrier
+	for _, v := range []int64{5, -7, 65535, big, -big, math.MaxInt64, math.MinInt64 + 1} {
+		v := v
+		cs = append(cs, carrier{"int64", fmt.Sprint(v), func(c *dyntpl.Ctx) { c.SetStatic("x", v) }}, carrier{"*int64", fmt.Sprint(v), func(c *dyntpl.Ctx) { x := v; c.SetStatic("x", &x) }})
+	}
+	for _, v := range []uint64{0, 42, 1<<63 + 1, math.MaxUint64} {
+		v := v
+		cs = append(cs, carrier{"uint64", fmt.Sprint(v), func(c *dyntpl.Ctx) { c.SetStatic("x", v) }}, carrier{"*uint", fmt.Sprint(v), func(c *dyntpl.Ctx) { x := uint(v); c.SetStatic("x", &x) }})
+	}
+	cs = append(cs, carrier{"int8", "-128", func(c *dyntpl.Ctx) { c.SetStatic("x", int8(-128)) }}, carrier{"int32", "2147483647", func(c *dyntpl.Ctx) { x := int32(math.MaxInt32); c.SetStatic("x", &x) }})
+	forms := []string{"{%= x|round %}", "{%= x|ceil %}", "{%= x|floor %}", "{%= x|roundPrec(2) %}", "{%= x|ceilPrec(3) %}", "{%= x|floorPrec(3) %}", "{%f.2= x %}", "{%F.12= x %}"}
+	for _, c := range cs {
+		for _, f := range forms {
+			key, po := tplKey(f, false)
+			res.Evaluations++
+			if po.ErrClass() != "OK" {
+				continue
+			}
+			ctx := heldOrNew(rng)
+			c.set(ctx)
+			obs := Render(key, ctx)
+			res.Hist("round-int:" + c.kind)
+			if obs.ErrClass() == "OK" && string(obs.Out) == c.text {
+				res.Distinct(f + c.kind + c.text)
+				continue
+			}
+			res.OracleFails++
+			res.AddViolation(&Violation{Kind: "failing-input", Class: "round:integer-changed",
+				What:   fmt.Sprintf("%s with the %s value %s prints %q (%s %s): an integer must come through a rounding modifier unchanged", f, c.kind, c.text, obs.Out, obs.ErrClass(), obs.Err),
+				Replay: map[string]any{"template": f, "kind": c.kind, "value": c.text, "observed": string(obs.Out)}})
+		}
+	}
 }
 
 func runArith(o *Options, res *Result, rng *RNG) {
